@@ -1,3 +1,33 @@
-From Coq Require Import List.
-Theorem C17_placeholder : True. Proof. exact I. Qed.
-Print Assumptions C17_placeholder.
+(* C17 — parameter initialisation bookkeeping
+   Property theorems only: each is closed by `exact <lemma>`; proofs live in the imported files. *)
+From Coq Require Import List ZArith QArith Qcanon Ring_theory Field_theory Permutation Sorted.
+Import ListNotations.
+From CK Require Import Init.
+Close Scope Qc_scope. Close Scope Q_scope. Close Scope Z_scope. Open Scope nat_scope.
+
+(* the axis normalised inside a parameter's own slice (kept with its fold dimension) is the declared axis modulo the rank, for positive and negative declarations *)
+Theorem C17_axis :
+  forall axis r : Z, (0 < r)%Z -> (- r <= axis < r)%Z -> simplex_axis axis r = eff_axis axis r.
+Proof. exact simplex_axis_correct. Qed.
+Print Assumptions C17_axis.
+
+(* sampling with the simplex axis last and moving it back to its position restores the tensor's shape, for every rank and axis *)
+Theorem C17_dirichlet_shape :
+  forall (d : nat) (shape : list nat), d < length shape -> movedim_last d (sample_shape d shape) = shape.
+Proof. exact movedim_restores. Qed.
+Print Assumptions C17_dirichlet_shape.
+
+(* fold-wise initialisation applies initialiser i to slice i only *)
+Theorem C17_foldwise_slice :
+  forall (T : Type) (inits : list (T -> T)) (slices : list T) (i : nat) (d : T),
+         i < length inits ->
+         i < length slices -> nth i (foldwise T inits slices) d = nth i inits (fun x : T => x) (nth i slices d).
+Proof. exact foldwise_nth. Qed.
+Print Assumptions C17_foldwise_slice.
+
+(* and keeps the number of slices *)
+Theorem C17_foldwise_length :
+  forall (T : Type) (inits : list (T -> T)) (slices : list T),
+         length (foldwise T inits slices) = length slices.
+Proof. exact foldwise_length. Qed.
+Print Assumptions C17_foldwise_length.
